@@ -14,7 +14,7 @@ theorem inv_step {cfg : Config} (hnd : cfg.voterIds.Nodup) {s s' : AState} (hi :
   | grant m q hq ht hone hup => exact inv_grant hi m q hq ht hone hup
   | becomeLeader c Q hc hQ hv => exact inv_becomeLeader hnd hi c Q hc hQ hv
   | clientAppend l p hl => exact inv_clientAppend hnd hi l p hl
-  | sendAE l prev k hl hp => exact inv_sendAE hi l prev k hl hp
+  | sendAE l prev k stamp hl hp => exact inv_sendAE hi l prev k stamp hl hp
   | recvAEok n m hm ht hr hp hpt => exact inv_recvAEok hnd hi n m hm ht hr hp hpt
   | recvAErej n m hm ht hr => exact inv_recvAErej hi n m ht
   | advanceCommit l i Q hl hil hti hQ ha => exact inv_advanceCommit hi l i Q hl hil hti hQ ha
@@ -61,7 +61,7 @@ theorem step_ext {cfg : Config} (hnd : cfg.voterIds.Nodup) {s s' : AState} (hi :
       rcases List.mem_cons.mp h with hn | ho
       · injection hn with h1 h2; injection h2 with h2 h3; subst h1 h3; exact Or.inr (Nat.le_refl _)
       · exact Or.inl ho
-  | sendAE l prev k hl hp => exact hrefl _ rfl rfl rfl
+  | sendAE l prev k stamp hl hp => exact hrefl _ rfl rfl rfl
   | recvAEok n m hm ht hr hp hpt =>
     refine ⟨fun x h => h, fun x h => List.mem_cons_of_mem _ h, fun t c g h => ⟨g, h, List.prefix_refl g⟩, ?_⟩
     intro v j t h
